@@ -212,6 +212,7 @@ type submit struct {
 	fsys     byte   // header of a forwarded frame
 	fcomp    byte
 	fseq     byte
+	fv2      bool // version of a forwarded frame (not always the node's)
 	step0    int
 	step1    int
 	t0, t1   time.Duration
@@ -245,8 +246,17 @@ func (w *writer) writeOne(op int, target *gomavlib.Channel, special string, raw 
 	if op >= opFrameAll {
 		// a "forwarded" frame: its own header fields, filled by hand as the API demands
 		s.fsys, s.fcomp, s.fseq = byte(200+w.id), byte(7+w.id), byte(idx*3)
-		f := &ref.Frame{V2: v2, Seq: s.fseq, Sys: s.fsys, Comp: s.fcomp, MsgID: ref.DefTag.ID}
-		f.Payload = ref.DefTag.Encode(tagVals(byte(w.id), byte(op), idx, 0), v2)
+		// a frame that came in over a link of the other protocol version is forwarded as it is
+		fv2 := v2
+		if dsim.Choose(4) == 0 {
+			fv2 = !v2
+		}
+		s.fv2 = fv2
+		if s.raw {
+			msg = &message.MessageRaw{ID: ref.DefTag.ID, Payload: ref.DefTag.Encode(tagVals(byte(w.id), byte(op), idx, 0), fv2)}
+		}
+		f := &ref.Frame{V2: fv2, Seq: s.fseq, Sys: s.fsys, Comp: s.fcomp, MsgID: ref.DefTag.ID}
+		f.Payload = ref.DefTag.Encode(tagVals(byte(w.id), byte(op), idx, 0), fv2)
 		f.Checksum = f.ComputeChecksum(ref.DefTag.CRCExtra())
 		fr = fromRef(f)
 		if !s.raw {
